@@ -41,6 +41,10 @@ func c07(r *Report) {
 	}
 
 	r.Guard("C07.R1", "wait-group pairing: Add and Wait under connsMu, Done and conn.Close deferred on every handler exit, closing signalled before waiting", func() {
+		// a tunnel handler finishes: both copiers end each other and report their end
+		if hcr := r.Use("", "Proxy.handleConnectRequest"); hcr != nil {
+			tunnelEOSRule(r, hcr, tunnelCopiers(hcr))
+		}
 		for _, f := range w.Funcs("") {
 			var st map[ssa.Instruction]lockset
 			for _, c := range calls(f) {
@@ -271,6 +275,7 @@ func c07(r *Report) {
 				}
 			}
 		}
+		readFromConnReaderRule(r, rd)
 		r.Decide("path", "(*M.Proxy).readRequest: the blocking read runs on its own goroutine", inline == 0 && spawned > 0, "http.ReadRequest is called in a goroutine literal; the reader itself only selects", "http.ReadRequest is called on the goroutine that is meant to select on p.closing: an idle connection is not released on shutdown until its read deadline expires, and Close waits that long", pos)
 		// Closing() reports the state of the channel: true on the receive arm, false on default
 		if cf := r.W.Fn("", "Proxy.Closing"); cf != nil && cf.Blocks != nil {
@@ -533,4 +538,42 @@ func edgeReaches(from, to *ssa.BasicBlock) bool {
 		return false
 	}
 	return walk(from)
+}
+
+// readFromConnReaderRule: every request of a connection is parsed from the
+// connection's one buffered reader (brw.Reader): a reader created per request
+// reads ahead and keeps the bytes of the next pipelined request when it is
+// discarded. Shared by C01.R5 and C07.R3.
+func readFromConnReaderRule(r *Report, rd *ssa.Function) {
+	okRd := true
+	nrd := 0
+	var fs []*ssa.Function
+	fs = append(fs, rd)
+	fs = append(fs, rd.AnonFuncs...)
+	for _, f := range fs {
+		for _, c := range calls(f, "net/http.ReadRequest") {
+			nrd++
+			direct := false
+			for _, l := range resolveAll(c.Common().Args[0]) {
+				if ld, ok := l.(*ssa.UnOp); ok && ld.Op == token.MUL {
+					if fa, isFa := ld.X.(*ssa.FieldAddr); isFa && fieldObj(fa).Name() == "Reader" {
+						if len(rd.Params) > 3 && isParamVal(resolveFree(fa.X), rd.Params[3]) || func() bool {
+							bl, isL := resolveFree(fa.X).(*ssa.UnOp)
+							if !isL {
+								return false
+							}
+							a, isA := bl.X.(*ssa.Alloc)
+							return isA && len(storesTo(a)) == 1 && storesTo(a)[0].Val == ssa.Value(rd.Params[3])
+						}() {
+							direct = true
+						}
+					}
+				}
+			}
+			if !direct {
+				okRd = false
+			}
+		}
+	}
+	r.Decide("flow", "(*M.Proxy).readRequest: requests are parsed from the connection's own buffered reader", okRd && nrd > 0, "http.ReadRequest(brw.Reader)", "the request is parsed through a reader made for this call: what it read ahead (the next pipelined request) is lost when it is discarded", rd.Pos())
 }
